@@ -489,6 +489,20 @@ def has_nested(n):
     raise ValueError(k)
 
 
+def has_sized_nested_aligned(s, n):
+    """does the value contain a nested buffer built with the with_size flag (buffer aligned to its length field, so the
+    vector DATA is 4 mod the alignment) whose content needs an alignment above 4?  flatcc's verifier checks vector / struct
+    alignment relative to the nested data start and rejects exactly this layout (known finding)."""
+    k = n.kind
+    if k in ('bytes', 'str', 'vec'): return False
+    if k == 'offvec': return any(has_sized_nested_aligned(s, e) for e in n.a)
+    if k == 'union': return n.b is not None and has_sized_nested_aligned(s, n.b)
+    if k == 'uvec': return any(e is not None and has_sized_nested_aligned(s, e) for _, e in n.a)
+    if k == 'nested': return (bool(n.c['with_size']) and req_align(s, n.b, n.a) > 4) or has_sized_nested_aligned(s, n.b)
+    if k == 'table': return any(has_sized_nested_aligned(s, v) for _, v in n.b)
+    raise ValueError(k)
+
+
 def has_sized_nested(n):
     """does the value contain a nested buffer built with the with_size flag (aligned to its length field)?"""
     k = n.kind
@@ -522,6 +536,8 @@ class ScriptGen:
         self.h, self.m = [], []
         self.nreg = 0
         self.memo = [{}]
+        self.opaque = set()      # registers whose value the implementation side cannot observe
+        self.gen_api = False     # use the generated builder api for tables (needs the per-schema glue harness)
         self.kinds = {}          # statistics: op style histogram
 
     def pick(self, opts):
@@ -588,7 +604,75 @@ class ScriptGen:
         self.memo[-1][key] = r
         return r
 
+    def c_equal(self, t, a, b):
+        """C's `v == V` on the field type (the test the generated <T>_<f>_add uses for default elision)"""
+        bt = self.s.base_scalar(t)
+        if bt in ('float', 'double'):
+            x, y = struct.unpack('<' + PACK[bt], a)[0], struct.unpack('<' + PACK[bt], b)[0]
+            return x == y          # -0.0 == 0.0, NaN != NaN
+        return a == b
+
+    def table_gen(self, n):
+        """the table through the GENERATED api: <T>_start, <T>_<f>_add / _force_add (default elision), <T>_end"""
+        s, rng = self.s, self.rng
+        t = s.table_index[n.a]
+        lf = s.live_fields(n.a)
+        fidx = {f.name: j for j, f in enumerate(lf)}
+        adds = list(n.b)
+        rng.shuffle(adds)
+        self.stat('Tgenerated')
+        self.h.append('Gs:%d' % t)
+        madds, kept = [], []
+        for f, v in adds:
+            k = s.kind(f.type)
+            j = fidx[f.name]
+            if k == 'scalar':
+                force = (not f.optional) and rng.random() < 0.25
+                self.h.append('%s:%d:%d:%s' % ('Gf' if force else 'Ga', t, j, hx(v.a)))
+                if (not force) and (not f.optional) and self.c_equal(f.type, v.a, s.default_bytes(f)):
+                    self.stat('elided-default')
+                    continue                     # elided: reads back as absent (= the default)
+                sz, al = s.inline_size_align(f.type)
+                madds.append('i/%d/%d/%d/%s' % (f.id, sz, al, hx(v.a))); kept.append((f, v))
+            elif k == 'struct':
+                sz, al = s.inline_size_align(f.type)
+                self.h.append('Ga:%d:%d:%s' % (t, j, hx(v.a)))
+                madds.append('i/%d/%d/%d/%s' % (f.id, sz, al, hx(v.a))); kept.append((f, v))
+            elif k == 'union':
+                r = None if v.b is None else self.node(v.b)
+                self.h.append('Gu:%d:%d:%d:%s' % (t, j, v.a, '-' if r is None else r))
+                if v.a != 0:
+                    madds.append('i/%d/1/1/%02x' % (f.id - 1, v.a)); madds.append('o/%d/%d' % (f.id, r))
+                kept.append((f, v))
+            elif k == 'uvec':
+                rv, rt = self.uvec([(c, None if e is None else self.node(e)) for c, e in v.a])
+                self.h.append('Gv:%d:%d:%d:%d' % (t, j, rt, rv))
+                madds.append('o/%d/%d' % (f.id - 1, rt)); madds.append('o/%d/%d' % (f.id, rv)); kept.append((f, v))
+            elif v.kind == 'nested' and v.a in s.structs and flat_struct(s, v.a) and rng.random() < 0.6:
+                # <T>_<f>_create_as_root(B, members...): struct created, wrapped by create_buffer(.., is_nested), added
+                size, al, _ = s.struct_layout(v.a)
+                self.h.append('Gn:%d:%d:%s' % (t, j, hx(v.b.a)))
+                idw = int.from_bytes(s.ident.encode(), 'little') if s.ident else 0
+                # CORRECTED behaviour (fixes/C15-nested-struct-create-as-root-mark.patch): buffer_start, struct, buffer_end;
+                # the unchanged generator calls create_buffer(.., is_nested) without start_buffer (length from the parent's mark)
+                self.m.append('B:%d:0:0' % idw)
+                self.m.append('R:%d:%s' % (al, hx(v.b.a))); rs = self.new()
+                self.m.append('E:%d' % rs); rb = self.new()
+                madds.append('o/%d/%d' % (f.id, rb)); kept.append((f, v))
+                v.c['with_size'] = False; v.c['gen_create'] = True
+                self.opaque.update([rs, rb])     # the generated call does not return these two references (the harness records 0)
+                self.stat('nested_struct_create_as_root')
+            else:
+                r = self.node(v)
+                self.h.append('Go:%d:%d:%d' % (t, j, r)); madds.append('o/%d/%d' % (f.id, r)); kept.append((f, v))
+        self.h.append('Ge:%d' % t)
+        self.m.append('T:' + (';'.join(madds) if madds else '-'))
+        n.b = kept
+        return self.new()
+
     def table(self, n):
+        if getattr(self, 'gen_api', False) and self.rng.random() < 0.7:
+            return self.table_gen(n)
         s, rng = self.s, self.rng
         adds = list(n.b)
         if self.styles: rng.shuffle(adds)
@@ -1074,3 +1158,119 @@ def object_positions(s, node, rd, tpos, pos, level=0):
         elif k == 'nested' and v.b.kind == 'table':
             nb = rd.follow(fp) + 4
             object_positions(s, v.b, rd, rd.follow(nb), pos, level * 1000 + fp)
+
+
+# ----------------------------------------------------------------------------------------- glue over the generated BUILDER api
+def flat_struct(s, name):
+    """struct whose members are all scalars / enums (create_as_root takes the members as arguments)"""
+    return all((not isinstance(t, tuple)) and s.scalar_size(t) for _, t in s.structs[name].fields)
+
+
+def gen_glue_build(s):
+    o = []
+    w = o.append
+    w('/* generated by checks/builder_util.py gen_glue_build for schema %s */' % s.name)
+    w('#include "%s_builder.h"' % s.name)
+    w('#define GFAIL(c) do { if (c) { free(d); return -1; } } while (0)')
+
+    def ctype(t):
+        return '%s_enum_t' % t if t in s.enums else CTYPE[t]
+    tabs = list(s.tables)
+    w('static int glue_op(flatcc_builder_t *B, char **f, int nf) {')
+    w('  uint8_t *d = 0; size_t n = 0; int t = nf > 1 ? atoi(f[1]) : -1; int fi = nf > 2 ? atoi(f[2]) : -1; int key = t * 1000 + fi; (void)n;')
+    w('  if (!strcmp(f[0], "Gs")) { switch (t) {')
+    for i, tn in enumerate(tabs): w('    case %d: return %s_start(B);' % (i, tn))
+    w('  } return -1; }')
+    w('  if (!strcmp(f[0], "Ge")) { flatcc_builder_ref_t r = 0; switch (t) {')
+    for i, tn in enumerate(tabs): w('    case %d: r = %s_end(B); break;' % (i, tn))
+    w('  } if (!r) return -1; push_reg(r); return 0; }')
+    # scalar / struct add, force_add
+    for op, suffix in (('Ga', 'add'), ('Gf', 'force_add')):
+        w('  if (!strcmp(f[0], "%s")) { int rc = -1; n = hx_decode(f[3], &d); switch (key) {' % op)
+        for i, tn in enumerate(tabs):
+            for j, fl in enumerate(s.live_fields(tn)):
+                k = s.kind(fl.type)
+                if k == 'scalar':
+                    if fl.optional and op == 'Gf': continue          # optional scalars have no force_add
+                    w('    case %d: { %s v; memcpy(&v, d, sizeof(v)); rc = %s_%s_%s(B, v); } break;' % (i * 1000 + j, ctype(fl.type), tn, fl.name, suffix))
+                elif k == 'struct' and op == 'Ga':
+                    w('    case %d: { %s_t v; memcpy(&v, d, sizeof(v)); rc = %s_%s_add(B, &v); } break;' % (i * 1000 + j, fl.type, tn, fl.name))
+        w('  } free(d); return rc; }')
+    w('  if (!strcmp(f[0], "Go")) { switch (key) {')
+    for i, tn in enumerate(tabs):
+        for j, fl in enumerate(s.live_fields(tn)):
+            if s.kind(fl.type) in ('string', 'vec', 'strvec', 'table', 'tabvec'):
+                w('    case %d: return %s_%s_add(B, regs[atoi(f[3])]);' % (i * 1000 + j, tn, fl.name))
+    w('  } return -1; }')
+    w('  if (!strcmp(f[0], "Gu")) { switch (key) {')
+    for i, tn in enumerate(tabs):
+        for j, fl in enumerate(s.live_fields(tn)):
+            if s.kind(fl.type) == 'union':
+                w('    case %d: { %s_union_ref_t u; u.type = (%s_union_type_t)atoi(f[3]); u.value = f[4][0] == \'-\' ? 0 : regs[atoi(f[4])]; return %s_%s_add(B, u); }'
+                  % (i * 1000 + j, fl.type, fl.type, tn, fl.name))
+    w('  } return -1; }')
+    w('  if (!strcmp(f[0], "Gv")) { switch (key) {')
+    for i, tn in enumerate(tabs):
+        for j, fl in enumerate(s.live_fields(tn)):
+            if s.kind(fl.type) == 'uvec':
+                u = fl.type[1:-1]
+                w('    case %d: { %s_union_vec_ref_t u; u.type = regs[atoi(f[3])]; u.value = regs[atoi(f[4])]; return %s_%s_add(B, u); }'
+                  % (i * 1000 + j, u, tn, fl.name))
+    w('  } return -1; }')
+    # nested struct root from members
+    w('  if (!strcmp(f[0], "Gn")) { int rc = -1; n = hx_decode(f[3], &d); switch (key) {')
+    for i, tn in enumerate(tabs):
+        for j, fl in enumerate(s.live_fields(tn)):
+            if fl.nested and fl.nested in s.structs and flat_struct(s, fl.nested):
+                size, al, members = s.struct_layout(fl.nested)
+                args = []
+                w('    case %d: {' % (i * 1000 + j))
+                for k, (mn, off, mt, sz) in enumerate(members):
+                    w('      %s a%d; memcpy(&a%d, d + %d, sizeof(a%d));' % (ctype(mt), k, k, off, k))
+                    args.append('a%d' % k)
+                w('      rc = %s_%s_create_as_root(B, %s); push_reg(0); push_reg(0); } break;' % (tn, fl.name, ', '.join(args)))
+    w('  } free(d); return rc; }')
+    # T_create with every field
+    w('  if (!strcmp(f[0], "Gc")) { static char *a[256]; int na = split_ch(f[2], \',\', a, 256); flatcc_builder_ref_t r = 0; (void)na; switch (t) {')
+    for i, tn in enumerate(tabs):
+        fields = s.live_fields(tn)
+        if len(fields) != len(s.tables[tn].fields): continue      # deprecated fields: no create call generated here
+        w('    case %d: {' % i)
+        args = []
+        for j, fl in enumerate(fields):
+            k = s.kind(fl.type)
+            if k == 'scalar':
+                w('      %s v%d; { uint8_t *p; hx_decode(a[%d], &p); memcpy(&v%d, p, sizeof(v%d)); free(p); }' % (ctype(fl.type), j, j, j, j))
+                args.append('v%d' % j)
+            elif k == 'struct':
+                w('      %s_t s%d; { uint8_t *p; hx_decode(a[%d], &p); memcpy(&s%d, p, sizeof(s%d)); free(p); }' % (fl.type, j, j, j, j))
+                args.append('&s%d' % j)
+            elif k == 'union':
+                w('      %s_union_ref_t v%d; { char *sl = strchr(a[%d], \'/\'); *sl = 0; v%d.type = (%s_union_type_t)atoi(a[%d]); v%d.value = sl[1] == \'-\' ? 0 : regs[atoi(sl + 1)]; }'
+                  % (fl.type, j, j, j, fl.type, j, j))
+                args.append('v%d' % j)
+            elif k == 'uvec':
+                u = fl.type[1:-1]
+                w('      %s_union_vec_ref_t v%d; { char *sl = strchr(a[%d], \'/\'); *sl = 0; v%d.type = regs[atoi(a[%d])]; v%d.value = regs[atoi(sl + 1)]; }' % (u, j, j, j, j, j))
+                args.append('v%d' % j)
+            else:
+                w('      flatcc_builder_ref_t v%d = a[%d][0] == \'-\' ? 0 : regs[atoi(a[%d])];' % (j, j, j))
+                args.append('v%d' % j)
+        w('      r = %s_create(B%s); } break;' % (tn, ''.join(', ' + x for x in args)))
+    w('  } if (!r) return -1; push_reg(r); return 0; }')
+    w('  return -1; }')
+    return '\n'.join(o) + '\n'
+
+
+def create_order(s, gendir):
+    """the order of the add calls inside the generated <T>_create functions, read from the generated builder header:
+    {table: [(field name, 'add' | 'add_value' | 'add_type')]}"""
+    import re
+    txt = open(os.path.join(gendir, '%s_builder.h' % s.name)).read()
+    out = {}
+    for tn in s.tables:
+        m = re.search(r'static inline %s_ref_t %s_create\(flatbuffers_builder_t \*B __%s_formal_args\)\n\{\n    if \(%s_start\(B\)(.*?)\) \{' % (tn, tn, tn, tn), txt, re.S)
+        if not m: continue
+        calls = re.findall(r'\|\| %s_(\w+?)_(add_value|add_type|add)\(B, v\d+(?:\.type)?\)' % tn, m.group(1))
+        out[tn] = calls
+    return out
